@@ -11,3 +11,9 @@ def C03_amp_after_moved_value(case, params):
     import rt
     import findings_rt as FR
     return FR.amp_after_moved_value(case, rt.c03_check)
+
+
+def C03_rotation_short_on_full_form(case, params):
+    import rt
+    import findings_rt as FR
+    return FR.rotation_short_on_full_form(case, rt.c03_check)
